@@ -37,4 +37,15 @@ def consumersOfT (db : DB R) (project : Nat) (user : Option Nat) (tp : Option Na
 def consumersOf (db : DB R) (project : Nat) (user : Option Nat) : List ConsRow :=
   consumersOfT db project user (fun _ => true)
 
+/-- the groups of the 1.38 format of `GET /usages`: (key, {class: sum, consumer_count: n}) -/
+def usageGroupsOf (b : Body R) : List (Key × Body R) := ((b.fld? .usages).getD .null).fields
+
+/-- the consumers `consumer_count` counts for a type condition: distinct consumer uuids of the joined rows -/
+def countedConsumers (db : DB R) (project : Nat) (user : Option Nat) (tp : Option Nat → Bool) : List Nat :=
+  ((totalRows db project user tp).map (·.1.consumer)).eraseDups
+
+/-- the row of the provider queries for provider `p` whose root row is `root` -/
+def viewOf (db : DB R) (p root : RpRow) : RpView :=
+  ⟨p, root.uuid, p.parent.bind (fun i => (db.rpById i).map (·.uuid))⟩
+
 end Placement.C11Reads
